@@ -10,6 +10,16 @@ REPO = os.environ.get('MV_REPO', '/repo')
 # behaviour-preserving variants on which a rule is known to answer `analysis-incomplete` (DESIGN §13 'known weak spots')
 ACCEPTED_ALARMS = {
     'B11-r3': 'C15.R8: sort_face_vertices rewritten with find_map + bool::then returning a tuple (tuple-valued opaque search not modelled)',
+    # benign5 = correct twins of the round-6 seeded refactorings (DESIGN §14, round 6); the ones below restructure a whole mechanism and are
+    # answered with analysis-incomplete / unrecognised-construct reports (fail closed) — documented weak spots
+    'C09-r6-recycled-scratch-cell-stale-corner-radii': 'cell builder rewritten as rebuild(&mut self) on a recycled scratch cell (map_init): builder scenario and C09.R4 sibling shapes not recognised',
+    'C10-r6-i128-shortcut-range-check-skips-z': 'C10.R1/C11.R1: machine-integer (i128) fast path beside the big-integer path — exactness would need an overflow (interval) argument the analysis does not make',
+    'C12-r6-single-pass-finalize-drops-late-right-links': 'C12.R1/R2: connectivity assembled in one pass over a flat array instead of per-cell lists',
+    'C12-r6-single-pass-finalize-drops-late-right-links.alt-count-first': 'C12.R1/R2: count-then-fill assembly of the connectivity array',
+    'C15-r6-dimension-assert-hoisted-to-integrator': 'C15.R5: integrator-level assertion guarded by "some cell is constructed" (needs the correlation between that scan and the per-cell mapping)',
+    'C17-r6-image-query-table-z-uses-width-y': 'C06.R1/C17.R2-R4: wrapped search restructured around a table of shifted query points and an image index instead of a shift vector',
+    'C18-r6-deferred-exact-pass-stale-index-after-swap': 'C18.R3/C05.R3: two-pass partition (float pass, deferred exact pass over remembered indices)',
+    'C18-r6-deferred-exact-pass-stale-index-after-swap.alt-same-storage-order': 'C18.R3/C05.R3: exact pass before the partition loop driven by stored clip values',
 }
 
 
@@ -19,7 +29,7 @@ def corpus():
     if os.path.exists(p):
         out.extend(json.load(open(p)))
     # refactorings written by independent sub-agents (DESIGN §14); ACCEPTED_ALARMS are documented weak spots of the analysis, not of the code
-    for d in ('benign2', 'benign3', 'benign4'):
+    for d in ('benign2', 'benign3', 'benign4', 'benign5'):
         bd = os.path.join(V, 'selftest', d)
         if os.path.isdir(bd):
             for n in sorted(os.listdir(bd)):
